@@ -447,7 +447,8 @@ for s in range(4):
           "fixed root, 4 arbitrary slots, long-name orders restricted to 0..=3 (with/without 0x40), fixed-buffer build",
           build="noalloc", timeout=2400, tier="quick" if s == 0 else "thorough"))
 
-for b_ in ("alloc", "noalloc"):
+# (fixed-buffer build only: in the alloc build the accepting path of the Vec-backed builder runs CBMC out of memory, as in round 1)
+for b_ in ("noalloc",):
     add(H("dir::verif::lnb_twenty_slots_exact", ["C17", "C15", "C19", "C01"],
           "a well-formed 20-slot run carrying the longest legal name decodes to exactly its 255 units iff the checksum matches "
           "the short name (else nothing): the 20th slot is accepted, lengths 248..=255 are not truncated",
